@@ -194,7 +194,7 @@ impl Check for C24 {
         vec![GenSpec { name: "modes", quick: 12_000, thorough: 600_000 }, GenSpec { name: "ground", quick: 6000, thorough: 200_000 }, GenSpec { name: "known", quick: 2, thorough: 2 }]
     }
     fn rule(&self) -> &'static str {
-        "member, member1, append, rember, permute, distinct, cons, first, rest, empty called with every argument independently ground / partially ground (variables as elements or as an open tail, shared between arguments) / fresh, over lists of length <= 4 with repeated elements, optionally with the bindings that ground an argument posted AFTER the call. 'ground': all arguments ground: the number of answers must be the Vec-based multiplicity (member: one per matching position; member1, append, rember, permute, distinct, cons, first, rest, empty: one iff the relation holds). 'modes': (a) soundness: every ground instance (over a small universe, honouring the attached disequalities) of every answer must satisfy the Vec-based definition; (b) finite modes: the answer multiset equals the reference's; (c) completeness: every ground argument tuple over the universe {1, 2, [], [x], [x, y]} that satisfies the Vec-based definition and matches the call must be an instance of one of the first 60 answers; for member1 additionally no two answers may share a ground instance. Distinct = distinct call text; non-trivial = the call has at least one variable and at least one answer."
+        "member, member1, append, rember, permute, distinct, cons, first, rest, empty called with every argument independently ground / partially ground (variables as elements or as an open tail, shared between arguments) / fresh, over lists of length <= 4 with repeated elements, optionally with bindings posted AFTER (or before) the call that ground an argument or merely alias two of the call's variables (also in chains). 'ground': all arguments ground: the number of answers must be the Vec-based multiplicity (member: one per matching position; member1, append, rember, permute, distinct, cons, first, rest, empty: one iff the relation holds). 'modes': (a) soundness: every ground instance (over a small universe, honouring the attached disequalities) of every answer must satisfy the Vec-based definition; (b) finite modes: the answer multiset equals the reference's; (c) completeness: every ground argument tuple over the universe {1, 2, [], [x], [x, y]} that satisfies the Vec-based definition and matches the call must be an instance of one of the first 60 answers; for member1 additionally no two answers may share a ground instance. Distinct = distinct call text; non-trivial = the call has at least one variable and at least one answer."
     }
     fn assumptions(&self) -> Vec<String> {
         vec!["Vec-based definitions in checks::c24::holds (append allows an arbitrary second argument; member walks cons cells of improper lists)".into(), "completeness is checked only for solutions inside the small universe and among the first 60 answers".into()]
@@ -291,7 +291,20 @@ impl Check for C24 {
                 continue;
             }
             bound.push(x);
-            let b = G::Eq(T::Var(x), if rng.chance(2, 3) { atom(&mut rng) } else { glist(&mut rng, 2) });
+            // a value, or (one in four) another variable of the call: pure variable-to-variable
+            // aliasing, also in chains through a third variable, leaves nothing ground
+            let rhs = if vars.len() >= 2 && rng.chance(1, 4) {
+                let y = *rng.pick(&vars);
+                if y == x {
+                    continue;
+                }
+                T::Var(y)
+            } else if rng.chance(2, 3) {
+                atom(&mut rng)
+            } else {
+                glist(&mut rng, 2)
+            };
+            let b = G::Eq(T::Var(x), rhs);
             if rng.chance(2, 3) {
                 body.push(b);
             } else {
@@ -325,11 +338,11 @@ impl Check for C24 {
                         let ga: Vec<T> = args.iter().map(|t| t.subst(&m)).collect();
                         if ga.iter().all(|t| t.is_ground()) {
                             out.count("instances_checked_sound", 1);
-                            if rel == Rel::Permute && !holds(rel, &ga) && is_proper_subperm(&ga) && !extra.iter().any(|(x, t)| m[x] != *t) {
+                            if rel == Rel::Permute && !holds(rel, &ga) && is_proper_subperm(&ga) && !extra.iter().any(|(x, t)| m[x] != t.subst(&m)) {
                                 out.violate("M-ref", KNOWN_PERMUTE, format!("answer {} instantiated to permute({}, {})", a, ga[0], ga[1]), format!("{}", prog));
                                 break;
                             }
-                            if !holds(rel, &ga) || extra.iter().any(|(x, t)| m[x] != *t) {
+                            if !holds(rel, &ga) || extra.iter().any(|(x, t)| m[x] != t.subst(&m)) {
                                 out.violate("M-ref", "an answer of a library relation has a ground instance that does not satisfy the relation", format!("answer {} instantiated to {}({}) does not hold", a, rel.name(), ga.iter().map(|t| format!("{}", t)).collect::<Vec<_>>().join(", ")), format!("{}", prog));
                                 break;
                             }
@@ -368,7 +381,7 @@ impl Check for C24 {
                     m.insert(*x, uni[r % n].clone());
                     r /= n;
                 }
-                if extra.iter().any(|(x, t)| m[x] != *t) {
+                if extra.iter().any(|(x, t)| m[x] != t.subst(&m)) {
                     continue;
                 }
                 let ga: Vec<T> = args.iter().map(|t| t.subst(&m)).collect();
